@@ -3,6 +3,7 @@ namespace P
 
 /-- quoted.rs flavour of the escape decoder: unknown escape characters are an error -/
 def quotedCfg : DecCfg where
+  tbl := Gen.unescQuoted
   valid _ v := v != 0 && validScalar v
   unknown _ := none
 
@@ -10,13 +11,14 @@ def endsWs (acc : Str) : Bool := match acc with
   | [] => false
   | c :: _ => c == ' ' || c == '\t' || c == '\n'
 
-/-- Quoted::parse_and_unquote after the D2 repair (`fixed = true`); `fixed = false` is the pinned code.
+/-- Quoted::parse_and_unquote after the D2 and D12d repairs (`fixed = true`); `fixed = false` is the pinned quote rule.
     acc is the decoded text so far, reversed. none = Err -/
 def unq (fixed : Bool) (q : Option Char) (acc : Str) (s : Str) : Option Str :=
   match s with
   | [] => some acc.reverse
   | c :: r =>
-    if isQuote c && (!fixed || q.isNone) && (acc.isEmpty || endsWs acc) then unq fixed (some c) acc r
+    if c == '\x00' then none   -- D12d: a literal NUL is rejected
+    else if isQuote c && (!fixed || q.isNone) && (acc.isEmpty || endsWs acc) then unq fixed (some c) acc r
     else if c == '\\' then
       match h : decode quotedCfg r with
       | some (d, r') => unq fixed q (d :: acc) r'
